@@ -427,6 +427,35 @@ fn homogenized_section(s: &Section, degs: &Degs, thorough: bool) {
         }
         if w == d as u64 && p[3] > 1 && p[0] > 0 && s.wants_sample() { s.sample(json!({"v": p, "homogenized": jxs(&want)})); }
     });
+    // machine element types: "makes w = 1" means exactly 1 (w/w), for every w - a reciprocal-multiply rewrite gives w*(1/w), which is
+    // one ulp off for many w (49, 98, ... in f64; 41, 47, ... in f32), overflows for subnormal w and is 0 for integer |w| > 1
+    s.require_classes(&["float w sweep", "integer elements"]);
+    macro_rules! hsweep { ($F:ty, $name:literal) => {{
+        let tiny = <$F>::MIN_POSITIVE * <$F>::EPSILON;   // smallest subnormal
+        let mut ws: Vec<$F> = (1..=200).flat_map(|k| [k as $F, -(k as $F), k as $F / 7.0, (k as $F) * 1e-3]).collect();
+        ws.extend([tiny, tiny * 3.0, -tiny * 5.0, <$F>::MIN_POSITIVE, <$F>::MAX / 16.0]);
+        for &w in &ws { for (a, b, c) in [(2.0 as $F, -4.0 as $F, 8.0 as $F), (0.5, 3.0, -1.25)] {
+            let v = Vec4 { x: a * w, y: b * w, z: c * w, w };
+            let (g1, mut g2) = (v.homogenized(), v); g2.homogenize();
+            s.eval(true); s.class("float w sweep");
+            for (site, g) in [(concat!("Vec4::homogenized<", $name, ">"), g1), (concat!("Vec4::homogenize<", $name, ">"), g2)] {
+                if g.w != 1.0 { vio(s, site, "w-not-1", json!({"v": [v.x as f64, v.y as f64, v.z as f64, v.w as f64], "got_w": g.w as f64}), 1); }
+                for (gi, vi) in [(g.x, v.x), (g.y, v.y), (g.z, v.z)] { let q = (vi / w) as f64; if !((gi as f64 - q).abs() <= 2.0 * <$F>::EPSILON as f64 * q.abs()) { vio(s, site, "not-v/w", json!({"v": [v.x as f64, v.y as f64, v.z as f64, v.w as f64], "got": gi as f64, "want": q}), 1); } }
+            }
+        } }
+    }} }
+    hsweep!(f64, "f64"); hsweep!(f32, "f32");
+    macro_rules! hint { ($T:ty, $name:literal) => {{
+        for w in (1..=12).flat_map(|k| [k as $T, -(k as $T)]) { for (a, b, c) in [(2 as $T, -3 as $T, 4 as $T), (0, 7, -1)] {
+            let v = Vec4 { x: a * w, y: b * w, z: c * w, w };
+            let (g1, mut g2) = (v.homogenized(), v); g2.homogenize();
+            s.eval(w != 1); s.class("integer elements");
+            for (site, g) in [(concat!("Vec4::homogenized<", $name, ">"), g1), (concat!("Vec4::homogenize<", $name, ">"), g2)] {
+                if (g.x, g.y, g.z, g.w) != (a, b, c, 1) { vio(s, site, "not-v/w", json!({"v": [v.x as i64, v.y as i64, v.z as i64, v.w as i64], "got": [g.x as i64, g.y as i64, g.z as i64, g.w as i64], "want": [a as i64, b as i64, c as i64, 1]}), 1); }
+            }
+        } }
+    }} }
+    hint!(i32, "i32"); hint!(i64, "i64");
     s.meta("lattice", json!({"variables": 4, "order": d, "points": lattice_count(4, d).to_string(), "measured_degree (numerator+denominator)": measured(degs, "Vec4::homogenized"), "identity": "got_i * w == v_i (cross-multiplied, degree 2), evaluated without forming a quotient so that w = 0 points count"}));
 }
 
@@ -1109,6 +1138,29 @@ fn slerp_float_near_parallel<F: Sl>(s: &Section, thorough: bool) {
     } } }
 }
 
+/// nearly unit vectors: the in-place forms must agree with normalized() (the statement's "in-place forms consistent") and reach unit length
+fn nearly_unit<F: Fl, V: Sp<F>>(s: &Section) {
+    let n = V::N;
+    let site = |f: &str| format!("{}::{}<{}>", V::NAME, f, F::NAME);
+    for delta in [1e-2f64, 1e-3, 1e-4, 1e-5, 1e-7, -1e-3, -1e-5] { for shape in 0..3usize { for pos in 0..n.min(4) {
+        // shape 0: (0.6, 0.8) plus a small extra component; 1: one lane 1 + delta; 2: (0.6 + delta, 0.8)
+        let mut e = vec![0.0f64; n];
+        match shape { 0 => { e[pos] = 0.6; e[(pos + 1) % n] = 0.8; if n > 2 { e[(pos + 2) % n] = delta; } else { e[pos] += delta; } }, 1 => { e[pos] = 1.0 + delta; }, _ => { e[pos] = 0.6 + delta; e[(pos + 1) % n] = 0.8; } }
+        let vv: V = V::from_elems(e.iter().map(|&x| F::of(x)).collect());
+        let inp = || json!({"v": e});
+        s.eval(true); s.class("nearly unit input");
+        let Some(want) = s.call(&site("normalized"), inp, || felems::<F, V>(vv.normalized_())) else { continue };
+        let len = fdot(&want, &want).sqrt();
+        if !near::<F>(len, 1.0, 1.0) { vio(s, &site("normalized"), "not-unit-length", json!({"input": inp(), "|got|": len}), 1); }
+        for (f, got) in [("normalize", s.call(&site("normalize"), inp, || { let mut t = vv; t.normalize_(); felems::<F, V>(t) })),
+                         ("normalize_and_get_magnitude", s.call(&site("normalize_and_get_magnitude"), inp, || { let mut t = vv; let _ = t.normalize_get_(); felems::<F, V>(t) })),
+                         ("normalized_and_get_magnitude", s.call(&site("normalized_and_get_magnitude"), inp, || felems::<F, V>(vv.normalized_get_().0)))] {
+            let Some(g) = got else { continue };
+            if g != want { let gl = fdot(&g, &g).sqrt(); vio(s, &site(f), "differs-from-normalized()", json!({"input": inp(), "got": g, "normalized()": want, "|got|": gl}), 1); }
+        }
+    } } }
+}
+
 macro_rules! each_spatial { ($V:ident => $body:block) => { vx::for_spatial_vecs!($V => $body) } }
 
 fn main() {
@@ -1151,7 +1203,7 @@ fn main() {
     rep.section("triangle_area (Vec2, signed grid)",
         "all triangles with vertices in {-2..2}^2 (quick) / {-3..3}^2 (thorough), X and f64: triangle_area = |(b-a)x(c-a)|/2 (branches on the sign: bounded, not complete); non-trivial: non-collinear", true, false, |s| triangle_area_section(s, th));
     rep.section("homogenized / homogenize (Vec4)",
-        "every point v of L(4, D), D = 7 / 10: on formal fractions (no quotient formed, w = 0 included) each lane N/D satisfies N*w = v_i*D; on X (w != 0) the result is v/w with w lane exactly 1, the in-place twin agrees, the result is_point; f64 likewise with the harness bound; non-trivial: w != 0", true, true, |s| homogenized_section(s, &degs, th));
+        "every point v of L(4, D), D = 7 / 10: on formal fractions (no quotient formed, w = 0 included) each lane N/D satisfies N*w = v_i*D; on X (w != 0) the result is v/w with w lane exactly 1; f64/f32 sweeps of w over +-k, k/7, k/1000 (k <= 200), subnormals, MIN_POSITIVE, MAX/16: w lane exactly 1, other lanes within 2 ulp of v/w; i32/i64 exact quotients; the in-place twin agrees, the result is_point; f64 likewise with the harness bound; non-trivial: w != 0", true, true, |s| homogenized_section(s, &degs, th));
     rep.section("is_point / is_direction / is_homogeneous (Vec4)",
         "w in {1, 0, 2, -1, 1/2, 3/2, -1/2, 5, 1/8} x xyz in {0, 1, -7/2, 5}, tiers X, f64, f32: is_point iff w = 1, is_direction iff w = 0, is_homogeneous = either (values within a few ulp of 0 or 1 are not in the alphabet: the tolerance is not pinned by the property); non-trivial: all", true, false, |s| is_hom_section(s));
 
@@ -1160,9 +1212,10 @@ fn main() {
         each_spatial!(V => { exact_norms::<V<X>>(s); });
     });
     rep.section("magnitude / distance / normalized family, f64 and f32",
-        "all of {-2..2}^N for N <= 4 ({-3..3}^N thorough), vectors with at most two lanes deviating from the constant 0 or 1 vector for N >= 8, scales {1,1/2,3,1e10,1e-10}; oracle: exact integer sum of squares, sqrt in f64, relative bound 256 eps of the tier (forward error of the real computation is (N/2+2) eps); value and in-place twins, and-get-magnitude forms, distances to six companion vectors; zero vector: magnitude 0 asserted, normalisation not; non-trivial: non-zero vector", true, false, |s| {
-        s.require_classes(&["zero-vector: normalisation not asserted"]);
+        "nearly unit inputs (0.6, 0.8 plus or minus 1e-2 .. 1e-7 in various lanes): the three other forms equal normalized() exactly and the length is 1 within the bound; all of {-2..2}^N for N <= 4 ({-3..3}^N thorough), vectors with at most two lanes deviating from the constant 0 or 1 vector for N >= 8, scales {1,1/2,3,1e10,1e-10}; oracle: exact integer sum of squares, sqrt in f64, relative bound 256 eps of the tier (forward error of the real computation is (N/2+2) eps); value and in-place twins, and-get-magnitude forms, distances to six companion vectors; zero vector: magnitude 0 asserted, normalisation not; non-trivial: non-zero vector", true, false, |s| {
+        s.require_classes(&["zero-vector: normalisation not asserted", "nearly unit input"]);
         each_spatial!(V => { float_norms::<f64, V<f64>>(s, th); float_norms::<f32, V<f32>>(s, th); });
+        each_spatial!(V => { nearly_unit::<f64, V<f64>>(s); nearly_unit::<f32, V<f32>>(s); });
     });
     rep.section("try_normalized refuses only near-zero vectors",
         "v = scale * u for rational unit vectors u of every spatial type and scale in {0, 1e-30, 1e-20, 1e-12, 5e-8, 1e-6, 1e-3, 1e-2, 1, 1e10} (f64, f32) / {0, 2^-40, 2^-25, 2^-24, 2^-23, 2^-10, 1, 1e10} (X, eps = 2^-52): zero -> None; |v|^2 > 16 eps -> Some; Some(r) -> r = u (unit, parallel; floats within 256 eps); 0 < |v|^2 <= 16 eps may answer either way; non-trivial: non-zero vector", true, false, |s| {
